@@ -238,6 +238,163 @@ let kvhist (type v) (cfg : v cfg) (rn : v runner)
   done;
   if cfg.c_mode = z_of_small 2 then (pr ";"; pr_z !conflicts)
 
+(* ---------- SQL histories (L2) ---------- *)
+let z_mul_int (x : z) (n : int) = Z.mul x (z_of_small n)
+let nanos_of_sec (s : z) : z = Z.mul s (z_of_string "1000000000")
+let sql_now : z = nanos_of_sec (z_of_string "1750000000")
+let pr_outcome = function
+  | OK -> pr "ok" | ErrPK -> pr "pk" | ErrNotNull -> pr "notnull" | ErrOther -> pr "err" | Panic -> pr "panic"
+let rd_cop () = match next () with
+  | "eq" -> OpEQ | "lt" -> OpLT | "le" -> OpLE | "ge" -> OpGE | "gt" -> OpGT | s -> failwith ("bad_op_" ^ s)
+
+let pr_vtrace (tr : (row req * bool) list) =
+  pr "M"; pr "[";
+  Stdlib.List.iter (fun (r, ok) ->
+    if ok then match r with
+      | RPut (PCur, n, _) -> pr ("Pc#" ^ string_of_int (canon vn n))
+      | RPut (PMerged, n, _) -> pr ("Pm#" ^ string_of_int (canon vn n))
+      | RDel (PCur, n) -> pr ("Dc#" ^ string_of_int (canon vn n))
+      | RDel (PMerged, n) -> pr ("Dm#" ^ string_of_int (canon vn n))
+      | _ -> ()) (Stdlib.List.rev tr);
+  pr "]"
+
+let sqlhist () : unit =
+  nm_reset ();
+  let ncols = rd_int () in let epn = rd_int () in let _cache = rd_int () in
+  let bf = z_of_small (if epn = 0 then 4096 else epn) in
+  let cfg = cfg_rows bf in
+  let b = ref (empty_bucket : row bucket) in
+  let cs : (int * sconn) list ref = ref [] in
+  let getc i = try Stdlib.List.assoc i !cs with Not_found -> failwith ("no_conn_" ^ string_of_int i) in
+  let setc i c = cs := (i, c) :: Stdlib.List.remove_assoc i !cs in
+  let exec : 'a. (row, 'a) prog -> 'a result * (row req * bool) list = fun p ->
+    let ((b', r), tr) = run_rows big_fuel no_faults None !b p in
+    b := b'; (r, tr) in
+  let run_stmt i (p : (row, sconn * outcome_t) prog) =
+    let (r, tr) = exec p in
+    (match r with
+     | Done (sc', o) -> setc i sc'; pr_outcome o
+     | _ -> pr "err");
+    pr_vtrace tr in
+  (* specification side: the set of accepted statements (events) *)
+  let accepted : ev list ref = ref [] in
+  let pending : (int * ev list) list ref = ref [] in
+  let get_pending i = try Stdlib.List.assoc i !pending with Not_found -> [] in
+  let set_pending i l = pending := (i, l) :: Stdlib.List.remove_assoc i !pending in
+  let record i (e : ev) =
+    if (getc i).sc_explicit then set_pending i (get_pending i @ [e]) else accepted := !accepted @ [e] in
+  let stmt_t i = match (getc i).sc_conn.c_wt with Some t -> t | None -> sql_now in
+  let last_sel = ref (-1) in
+  let opno = ref 0 in
+  let nops = rd_int () in
+  for _ = 1 to nops do
+    pr ";"; incr opno;
+    match next () with
+    | "conn" -> let i = rd_int () in setc i sconn0; pr "ok"
+    | "create" ->
+        let i = rd_int () in let ro = rd_bool () in
+        let order = rd_vnames () in let corder = rd_vnames () in
+        run_stmt i (sql_create cfg sql_now (getc i) ro (nat_of_int ncols) order corder)
+    | "wt" ->
+        let i = rd_int () in let t = rd_z () in
+        setc i (sql_set_write_time (getc i) (if t = Z0 then None else Some (nanos_of_sec t))); pr "ok"
+    | "ins" ->
+        let i = rd_int () in let k = rd_sval () in let vals = rd_list rd_sval in
+        let corder = rd_vnames () in
+        let t = stmt_t i in
+        let was_explicit = (getc i).sc_explicit in
+        let before = !cs in
+        run_stmt i (sql_insert cfg sql_now (getc i) corder k vals);
+        ignore before;
+        (* accepted iff the statement succeeded: detect through the printed outcome *)
+        if Buffer.length out > 0 then begin
+          let txt = Buffer.contents out in
+          let seg = Stdlib.List.nth (Stdlib.List.rev (String.split_on_char ';' txt)) 0 in
+          if String.length seg >= 3 && String.sub seg 0 3 = " ok" then begin
+            let e = { e_kind = EIns; e_key = k; e_t = t; e_assign = Stdlib.List.map (fun v -> Some v) vals } in
+            if was_explicit then set_pending i (get_pending i @ [e]) else accepted := !accepted @ [e]
+          end
+        end
+    | "upd" ->
+        let i = rd_int () in let k = rd_sval () in
+        let assign = rd_list (fun () -> rd_opt rd_sval) in
+        let corder = rd_vnames () in
+        let t = stmt_t i in
+        let was_explicit = (getc i).sc_explicit in
+        let hit = (match (getc i).sc_tb with Some tb -> find_rows tb k <> [] | None -> false) in
+        run_stmt i (sql_update cfg sql_now (getc i) corder k assign);
+        let txt = Buffer.contents out in
+        let seg = Stdlib.List.nth (Stdlib.List.rev (String.split_on_char ';' txt)) 0 in
+        if hit && String.length seg >= 3 && String.sub seg 0 3 = " ok" then begin
+          let e = { e_kind = EUpd; e_key = k; e_t = t; e_assign = assign } in
+          if was_explicit then set_pending i (get_pending i @ [e]) else accepted := !accepted @ [e]
+        end
+    | "del" ->
+        let i = rd_int () in let k = rd_sval () in let corder = rd_vnames () in
+        let t = stmt_t i in
+        let was_explicit = (getc i).sc_explicit in
+        let hit = (match (getc i).sc_tb with Some tb -> find_rows tb k <> [] | None -> false) in
+        run_stmt i (sql_delete cfg sql_now (getc i) corder k);
+        let txt = Buffer.contents out in
+        let seg = Stdlib.List.nth (Stdlib.List.rev (String.split_on_char ';' txt)) 0 in
+        if hit && String.length seg >= 3 && String.sub seg 0 3 = " ok" then begin
+          let e = { e_kind = EDel; e_key = k; e_t = t; e_assign = [] } in
+          if was_explicit then set_pending i (get_pending i @ [e]) else accepted := !accepted @ [e]
+        end
+    | "sel" ->
+        let i = rd_int () in let desc = rd_bool () in
+        let cons = rd_list (fun () -> let o = rd_cop () in let v = rd_sval () in (o, v)) in
+        let limit = rd_int () in
+        if cons = [] && limit = 0 && not desc then last_sel := !opno;
+        pr (if desc then "SD" else "SA");
+        (match sql_select (getc i) desc cons (nat_of_int limit) with
+         | None -> pr "panic"
+         | Some rows ->
+             pr "ok";
+             pr_list (fun (k, vs) -> pr_sval k; Stdlib.List.iter pr_sval vs) rows)
+    | "begin" ->
+        let i = rd_int () in let _ = rd_vnames () in
+        let (sc', o) = sql_begin (getc i) in setc i sc'; pr_outcome o; pr "M"; pr "["; pr "]"
+    | "commit" ->
+        let i = rd_int () in let corder = rd_vnames () in
+        run_stmt i (sql_commit (getc i) corder);
+        let txt = Buffer.contents out in
+        let seg = Stdlib.List.nth (Stdlib.List.rev (String.split_on_char ';' txt)) 0 in
+        if String.length seg >= 3 && String.sub seg 0 3 = " ok" then accepted := !accepted @ get_pending i;
+        set_pending i []
+    | "rollback" ->
+        let i = rd_int () in let _ = rd_vnames () in
+        let (sc', o) = sql_rollback (getc i) in setc i sc'; pr_outcome o; pr "M"; pr "["; pr "]";
+        set_pending i []
+    | "refresh" ->
+        let i = rd_int () in let order = rd_vnames () in let corder = rd_vnames () in
+        run_stmt i (sql_refresh cfg sql_now (getc i) order corder)
+    | "version" ->
+        let i = rd_int () in
+        (match sql_version (getc i) with
+         | None -> pr "err"
+         | Some l -> pr "ok"; pr "{"; pr_list pr_vname l; pr "}")
+    | "vacuum" ->
+        let i = rd_int () in let before = rd_z () in let corder = rd_vnames () in
+        run_stmt i (sql_vacuum cfg (getc i) corder (nanos_of_sec before))
+    | s -> failwith ("unknown_sql_op_" ^ s)
+  done;
+  (* specification view of the last unconstrained ascending SELECT: the documented rule
+     applied to the set of accepted statements *)
+  if !last_sel > 0 then begin
+    pr "|";
+    let rows = interp (nat_of_int ncols) !accepted in
+    let b2 = Buffer.create 256 in
+    Buffer.add_string b2 (string_of_int !last_sel ^ ":SA,ok," ^ string_of_int (Stdlib.List.length rows));
+    let save = Buffer.contents out in
+    Buffer.clear out;
+    Stdlib.List.iter (fun (k, vs) -> pr_sval k; Stdlib.List.iter pr_sval vs) rows;
+    let body = Buffer.contents out in
+    Buffer.clear out; Buffer.add_string out save;
+    Buffer.add_string b2 (String.map (fun c -> if c = ' ' then ',' else c) body);
+    pr (Buffer.contents b2)
+  end
+
 (* ---------- commands ---------- *)
 let run_case (fn : string) : unit =
   match fn with
@@ -283,6 +440,7 @@ let run_case (fn : string) : unit =
            kvhist (cfg_plain (z_of_small (if mode = "cb" then 2 else 0)) bf) { runp = run_plain } rd_z
              (fun _ v -> pr_opt pr_z v)
        | _ -> failwith "bad_mode")
+  | "sqlhist" -> sqlhist ()
   | _ -> failwith ("unknown_fn_" ^ fn)
 
 let () =
